@@ -28,6 +28,7 @@ from .mir2smt import Adt, Opaque, Ref, Unsupported
 BV = lambda n: z3.BitVec(n, 64)  # noqa: E731
 C = lambda v: z3.BitVecVal(v, 64)  # noqa: E731
 UNIT = Adt("()", [])
+CS_VARIANTS = ["Goto", "MoveWriteFrameToRead", "DropReadFrame", "CopyFwd", "Back"]   # declaration order, checked in Arms
 
 
 def fin(name, w, kind=None, l=None, r=None):
@@ -81,6 +82,7 @@ def locate(f):
 class Arms:
     def __init__(self, funcs, repo):
         self.funcs = funcs
+        self.repo = repo
         self.variants = variants_of_inner(repo)
         self.vidx = {v: i for i, v in enumerate(self.variants)}
         fs = [g for g in funcs if g.name.endswith("::exec_with_tracker") and "Result<value::Value" in g.ret.replace("std::result::", "")]
@@ -89,6 +91,7 @@ class Arms:
         self.f = fs[0]
         self.bb, self.inner_local, self.ip_local, self.arms = locate(self.f)
         self.join = self.arms[str(self.vidx["Unit"])]
+        self.dbg = dict((n, l) for (n, l) in re.findall(r"debug (\w+) => (_\d+);", self.f.text))
         self.choice = z3.Bool("choice_bit")
         self.nread = BV("n_read_frames")
         self.mach = self._machine()
@@ -163,6 +166,22 @@ class Arms:
         models[r"^Node::<Redeem>::cmr$"] = lambda mach, name, args: [(T(), "ret", Opaque("cmr_of", {"node": strip(args[0]).data["name"]}))]
         models[r"^<Cmr as AsRef<\[u8\]>>::as_ref$"] = lambda mach, name, args: [(T(), "ret", Opaque("bytes_of", {"what": strip(args[0])}))]
         models[r"^(value::)?Word::as_value$"] = lambda mach, name, args: [(T(), "ret", Opaque("value_of_word", {"w": strip(args[0])}))]
+        # ---- the loop that pops the call stack, and the exit path
+        def pop(mach, name, args):
+            return [(T(), "ret", mach.store["popped"])]
+        models[r"^Vec::<CallStack<'_>>::pop$"] = pop
+        models[r"^<Vec<Frame> as DerefMut>::deref_mut$"] = lambda mach, name, args: [(T(), "ret", Ref(Opaque("frames", {"of": repr(strip(args[0]))})))]
+        models[r"^core::slice::<impl \[Frame\]>::last_mut$"] = lambda mach, name, args: [
+            (T(), "ret", Adt("Option", [Ref(Opaque("frame", {"idx": "last of " + strip(args[0]).data["of"]}))], "Some"))]
+        models[r"^Option::<&mut Frame>::unwrap$"] = M.m_expect
+        models[r"^Frame::reset_cursor$"] = lambda mach, name, args: [(T(), "ret", UNIT, ev(mach, "reset_cursor", strip(args[0]).data["idx"]))]
+        models[r"^Frame::as_bit_iter_from_cursor$"] = lambda mach, name, args: [
+            (T(), "ret", Opaque("frame_iter", {"frame": strip(args[0]).data["idx"], "after": len(mach.store.get("trace", ()))}))]
+        models[r"^(value::)?Value::from_padded_bits::<.*>$"] = lambda mach, name, args: [
+            (T(), "ret", Adt("Result", [Opaque("value", {"ty": strip(args[1]), "from": strip(args[0])})], "Ok"))]
+        models[r"^Result::<(value::)?Value, EarlyEndOfStreamError>::expect$"] = M.m_expect
+        models[r"^(value::)?Value::zero$"] = lambda mach, name, args: [(T(), "ret", Opaque("value", {"ty": strip(args[0]), "from": "zero"}))]
+        models[r"^(value::)?Value::unit$"] = lambda mach, name, args: [(T(), "ret", Opaque("value", {"ty": "the unit type", "from": "unit"}))]
         mach = M.Machine(self.funcs, models)
         orig_rvalue = mach.rvalue
         vidx = self.vidx
@@ -173,6 +192,10 @@ class Arms:
                 v = mach.read_place(env, m.group(1))
                 if isinstance(v, Adt) and v.name == "Inner":
                     return z3.BitVecVal(vidx[v.variant], 64)
+                if isinstance(v, Adt) and v.name == "CallStack":
+                    return z3.BitVecVal(CS_VARIANTS.index(v.variant), 64)
+                if isinstance(v, Adt) and v.name == "Option":
+                    return z3.BitVecVal(1 if v.variant == "Some" else 0, 64)
             m = re.match(r"^CallStack::<'_>::(\w+)(?:\((.*)\))?$", rv.strip())
             if m:
                 flds = [mach.operand(env, x) for x in M.split_top(m.group(2))] if m.group(2) else []
@@ -202,6 +225,131 @@ class Arms:
         for (c, k, v), st in zip(list(outcomes), outcomes.stores):
             res.append((c, k, v, st.get("trace", ())))
         return res
+
+
+def run_pop(arms, popped, program, out_width):
+    """the region from `call_stack.pop()` to the next loop head / the function's return"""
+    f = arms.f
+    start = None
+    for bb, st in f.blocks.items():
+        if any(re.search(r"= Vec::<CallStack<'_>>::pop\(", x) for x in st):
+            start = bb
+    if start is None:
+        raise Unsupported("exec_with_tracker: call_stack.pop() not found")
+    # the main loop head: where the Goto arm continues (`ip = next; goto -> bbN`)
+    heads = set()
+    for bb, st in f.blocks.items():
+        if len(st) >= 2 and re.match(r"^%s = copy " % arms.ip_local, st[-2]) and re.match(r"^goto -> (bb\d+)", st[-1]):
+            heads.add(re.match(r"^goto -> (bb\d+)", st[-1]).group(1))
+    if len(heads) != 1:
+        raise Unsupported("exec_with_tracker: main loop head not found (%r)" % heads)
+    mac = Adt("BitMachine", [Opaque("mac.data"), Opaque("mac.next_frame_start"), Opaque("mac.read"), Opaque("mac.write"),
+                             Opaque("mac.source_ty"), Opaque("mac.f5"), Opaque("mac.f6")])
+    env = {}
+    for loc in f.locals:
+        env[loc] = Opaque("uninit:" + loc)
+    env["_1"] = Ref(mac)
+    env[arms.dbg["program"]] = Ref(program)
+    env[arms.dbg["output_width"]] = out_width
+    arms.mach.store = {"trace": (), "popped": popped}
+    arms.mach.stop_blocks = heads | {start}
+    outcomes = M._Outcomes(arms.mach)
+    try:
+        arms.mach._exec_block(f, start, env, z3.BoolVal(True), outcomes, set(), [0])
+    finally:
+        arms.mach.stop_blocks = set()
+    return [(c, k, v, st.get("trace", ())) for (c, k, v), st in zip(list(outcomes), outcomes.stores)], start, list(heads)[0]
+
+
+def run_pop_checks(arms, sol, log, section):
+    """P.*: each call-stack entry is executed as what it stands for; E.*: the result is decoded
+    from the rewound output frame with the program's target type"""
+    explored = []
+    n = BV("w_n")
+    tgt_w = BV("w_target")
+    TGT = fin("T", tgt_w)
+    program = node("program", fin("S", BV("w_source")), TGT)
+    nxt = node("next", fin("X", BV("w_x")), fin("Y", BV("w_y")))
+    src = open(os.path.join(arms.repo, "src", "bit_machine", "mod.rs")).read()
+    m = re.search(r"enum CallStack<'a> \{(.*?)\n        \}", src, re.S)
+    if not m or re.findall(r"^\s+([A-Z]\w*)", m.group(1), re.M) != CS_VARIANTS:
+        raise Unsupported("unexpected variants of CallStack")
+    refs = {
+        "MoveWriteFrameToRead": ([], [("move_write_frame_to_read",)]),
+        "DropReadFrame": ([], [("drop_read_frame",)]),
+        "CopyFwd": ([n], [("copy", n), ("fwd", n)]),
+        "Back": ([n], [("back", n)]),
+    }
+    for v, (flds, ref) in refs.items():
+        with section("P.%s one call-stack entry" % v, log):
+            outs, start, head = run_pop(arms, Adt("Option", [Adt("CallStack", flds, v)], "Some"), program, tgt_w)
+            bad = []
+            for (c, k, val, tr) in outs:
+                if k != "stop" or val["bb"] != start:
+                    bad.append(c)            # must come back to the pop
+                    continue
+                got, ref_n = summarise_open(tr), summarise_open(ref)
+                if shape(got) != shape(ref_n):
+                    raise Unsupported("the %s entry has the effect %r where the reference has %r" % (v, shape(got), shape(ref_n)))
+                bad.append(z3.And(c, args_differ(got, ref_n)))
+            bad = [x for x in bad if not z3.is_false(z3.simplify(x))]
+            qn = "P.%s is executed as the micro-operations it stands for, then the next entry is popped" % v
+            if bad:
+                sol.add(qn, [z3.Or(bad)], vars_for_model=[n])
+            else:
+                sol.trivial(qn, "%d path(s), effect syntactically equal to the reference" % len(outs))
+            explored.append("P." + v)
+    with section("P.Goto one call-stack entry", log):
+        outs, start, head = run_pop(arms, Adt("Option", [Adt("CallStack", [Ref(nxt)], "Goto")], "Some"), program, tgt_w)
+        ok = len(outs) == 1 and outs[0][1] == "stop" and outs[0][2]["bb"] == head and not outs[0][3]
+        ipv = outs[0][2]["env"].get(arms.ip_local) if ok else None
+        while isinstance(ipv, Ref):
+            ipv = ipv.val
+        if not (ok and ipv is nxt):
+            raise Unsupported("the Goto entry does not simply continue the main loop at the popped node (outcomes %r)" % ([(k, v if k != "stop" else v["bb"]) for (c, k, v, t) in outs],))
+        sol.trivial("P.Goto continues the main loop with ip = the popped node, no micro-operation", "1 path, syntactic")
+        explored.append("P.Goto")
+    with section("E. exit path (empty call stack)", log):
+        outs, start, head = run_pop(arms, Adt("Option", [], "None"), program, tgt_w)
+        bad, pos, zero = [], [], []
+        for (c, k, val, tr) in outs:
+            if k == "panic":
+                bad.append(c)
+                continue
+            if k != "ret" or not (isinstance(val, Adt) and val.variant == "Ok" and isinstance(val.fields[0], Opaque) and val.fields[0].tag == "value"):
+                raise Unsupported("exit path: outcome %r %r" % (k, val))
+            vd = val.fields[0].data
+            right_ty = vd["ty"] is TGT
+            if vd["from"] in ("zero", "unit"):
+                zero.append(c)
+                if not right_ty:
+                    bad.append(c)                      # a value of another type than the program's target
+            else:
+                pos.append(c)
+                fr = vd["from"]
+                rewound = [e for e in tr if e[0] == "reset_cursor"]
+                good = (right_ty and isinstance(fr, Opaque) and fr.tag == "frame_iter" and "mac.write" in str(fr.data["frame"])
+                        and len(rewound) == 1 and rewound[0][1] == fr.data["frame"] and fr.data["after"] >= 1
+                        and all(e[0] == "reset_cursor" for e in tr))
+                if not good:
+                    bad.append(c)
+        # which path is taken: zero-width targets exactly
+        bad.append(z3.And(z3.Or(zero) if zero else z3.BoolVal(False), tgt_w != 0))
+        bad.append(z3.And(z3.Or(pos) if pos else z3.BoolVal(False), tgt_w == 0))
+        sol.add("E. the result is a value of the program's target type, decoded from the rewound output frame (or the unique value of a zero-width type)",
+                [z3.Or(bad)], vars_for_model=[tgt_w])
+        explored.append("E.exit")
+    return explored
+
+
+def summarise_open(trace):
+    """`summarise` for call-stack entries, which act on frames allocated by earlier arms"""
+    pre = []
+    if any(e[0] == "move_write_frame_to_read" for e in trace):
+        pre = [("new_write_frame", C(0))]
+    if any(e[0] == "drop_read_frame" for e in trace):
+        pre = [("new_write_frame", C(0)), ("move_write_frame_to_read",)]
+    return summarise(pre + list(trace))
 
 
 def _cs(item):
@@ -387,6 +535,11 @@ def run(funcs, repo, sol, log, section, problems_out):
                     if k == "ret":
                         bad.append(cc)       # returns where the semantics continue
                         continue
+                    def _r(x):
+                        while isinstance(x, Ref):
+                            x = x.val
+                        return repr(x)
+                    tr = [((e[0], _r(e[1])) if e[0] in ("write_bytes", "write_value") else e) for e in tr]
                     payloads = [e[1] for e in tr if e[0] in ("write_bytes", "write_value")]
                     ref_f = []
                     for e in ref:
@@ -417,6 +570,7 @@ def run(funcs, repo, sol, log, section, problems_out):
             else:
                 sol.trivial(qn, "%d path(s), no argument to compare (syntactically equal to the reference)" % n_paths)
             explored.append(variant)
+    explored += run_pop_checks(arms, sol, log, section)
     return arms, explored
 
 
